@@ -37,7 +37,9 @@ Step ==
   /\ l' = l + 1
   /\ CASE ev.ev = "cfg" ->
             Cfg([gw |-> ev.data.gw, gi |-> ev.data.gi, ri |-> ev.data.ri, integs |-> ev.data.integs,
-                 inhibit |-> ev.data.inhibit, windows |-> ev.data.windows])
+                 inhibit |-> ev.data.inhibit, windows |-> ev.data.windows, wait |-> ev.data.wait, maxwait |-> ev.data.maxwait])
+       [] ev.ev = "wait" -> SetWait(ev.data.wait)
+       [] ev.ev = "nflog.merge" -> NflogMerge(ev.gk, ev.integ, ev.data.ts, ToSet(ev.firing), ToSet(ev.resolved))
        [] ev.ev = "ingest" -> Ingest(ev.alerts[1].l, Ver(ev.alerts[1]))
        [] ev.ev = "sil.set" -> IF ev.data.code = 200 THEN SilSet(ev.data.ms, ev.data.start, ev.data.end) ELSE Other
        [] ev.ev = "sil.expire" -> IF ev.data.code = 200 THEN SilExpire(ev.data.idx) ELSE Other
